@@ -220,7 +220,12 @@ func (prop) Run(t *testing.T, s *sim.Sim, res *runner.Result) {
 							owner = map[string]any{"apiVersion": "example.org/v1", "kind": "XOther", "name": xr.GetName(), "uid": "namesake-uid", "controller": true}
 							what = "connection-secret-of-a-namesake-at-xr-secret-name"
 						}
-						sec := secret(ns, n, "connection.crossplane.io/v1alpha1", owner, map[string]string{"leftover": "bGVmdA==", "user": "c29tZW9uZQ=="})
+						typ := "connection.crossplane.io/v1alpha1"
+						if owner == nil && s.Tape.Next(3) == 0 {
+							// ... or somebody's own secret, of an ordinary type
+							typ, what = "Opaque", "uncontrolled-secret-of-another-type-at-xr-secret-name"
+						}
+						sec := secret(ns, n, typ, owner, map[string]string{"leftover": "bGVmdA==", "user": "c29tZW9uZQ=="})
 						if w.Direct.Create(ctx, sec) == nil {
 							w.S.Probe(what)
 						}
@@ -432,6 +437,26 @@ func (st *state) judgeXRSecretWrite(e *simapi.LogEntry, xrName string) {
 		}
 		w.S.Violate(sig, fmt.Sprintf("reconcile of XR %s wrote secret %s/%s, which another owner controls", xrName, ns, n))
 		return
+	}
+	// an uncontrolled secret that is not a connection secret is somebody's own:
+	// judged when this reconcile itself had read it as such (a swap between its
+	// read and its write is the check-then-act window recorded under
+	// xr-wrote-foreign-secret/replaced-after-this-reconcile-read-it)
+	if e.Before != nil && controllerUID(e.Before) == "" && e.Changed {
+		if typ, _, _ := unstructured.NestedString(e.Before, "type"); typ != "connection.crossplane.io/v1alpha1" {
+			for i := len(w.Store.Log) - 1; i >= 0; i-- {
+				l := w.Store.Log[i]
+				if l.TaskID == e.TaskID && l.Seq < e.Seq && l.Read && l.Verb == "get" && l.Key == e.Key && l.Injected == "" {
+					if rt, _, _ := unstructured.NestedString(l.After, "type"); l.After != nil && controllerUID(l.After) == "" && rt == typ {
+						w.S.Violate("C09/xr-wrote-secret-of-another-type", fmt.Sprintf("reconcile of XR %s wrote secret %s/%s, an uncontrolled secret of type %q (not a connection secret) as it had read it", xrName, ns, n, typ))
+						return
+					}
+					break
+				}
+			}
+			w.S.Probe("uncontrolled-secret-of-another-type-swapped-in-between-read-and-write")
+			return
+		}
 	}
 	// what did the composition produce in this reconcile?
 	produced := map[string]string{}
